@@ -83,7 +83,8 @@ FillWithVal(base, x, y) == base + 10 * y + x
 SrcVal(e, x, y) == e.base + y * e.sstride + x
 
 \* ---------------------------------------------------------------- constructors
-Fits(w, h, stride, len) == stride >= w /\ (h = 0 \/ (h - 1) * stride + w <= len)
+\* (a view without columns or rows holds nothing: any data will do)
+Fits(w, h, stride, len) == stride >= w /\ (w = 0 \/ h = 0 \/ (h - 1) * stride + w <= len)
 
 CtorOps == {"new", "new_from", "new_with", "raw"}
 PushOps == {"slice", "reborrow"}
@@ -148,9 +149,8 @@ ResAllowed(s, e) ==
     [] e.op = "slice" ->
          LET q == RectOf(e.rect, v) IN
          IF ~RectValid(q, v) THEN IsPanic(e)
-         ELSE IF q.l < q.r /\ q.t < q.b THEN IsOk(e)
-         ELSE IsOk(e) \/ IsPanic(e)        \* empty slice: either (see DESIGN, Admits)
-    [] e.op = "reborrow" -> IF IsEmptyView(v) THEN IsOk(e) \/ IsPanic(e) ELSE IsOk(e)
+         ELSE IsOk(e)                       \* every rectangle inside the view, empty ones (also on the far borders) too
+    [] e.op = "reborrow" -> IsOk(e)
     [] e.op = "pop" -> IsOk(e)
     [] e.op = "end" -> TRUE            \* end of history: only e.root is checked
     [] OTHER -> FALSE
